@@ -150,6 +150,21 @@ pub fn run(r: &mut Rng, n: usize, out: &mut Out) {
                 let res = nm.to_dotted_string();
                 out.case(&["name.toDotted", &c::name(&nm)], &c::hex(res.as_bytes()));
             }
+            4 if r.chance(1, 6) => {
+                // joins whose result is 254 … 257 octets long: 3 labels of 63 (193 octets with the root)
+                // joined to an origin of one label of 60 … 63 octets
+                let a = DomainName::from_labels(vec![
+                    Label::try_from(&[b'a'; 63][..]).unwrap(),
+                    Label::try_from(&[b'b'; 63][..]).unwrap(),
+                    Label::try_from(&[b'c'; 63][..]).unwrap(),
+                    Label::new(),
+                ])
+                .unwrap();
+                let k = 60 + r.below(4);
+                let b = DomainName::from_labels(vec![Label::try_from(&vec![b'o'; k][..]).unwrap(), Label::new()]).unwrap();
+                let res = a.make_subdomain_of(&b);
+                out.case(&["name.makeSub", &c::name(&a), &c::name(&b)], &c::opt_name(&res));
+            }
             4 => {
                 let a = if r.chance(1, 5) { gen::maximal_name(r) } else { gen::name(r, 5) };
                 let b = if r.chance(1, 5) { gen::maximal_name(r) } else { gen::name(r, 5) };
